@@ -31,6 +31,8 @@ structure DState where
   tab : List (Bytes × Bytes × Option Bytes) := []
   ser : Option Bytes := none
   lastSer : Option (Bytes × Db) := none
+  /-- does the model expect the file, as it is now, to load (it was loaded, or it is a complete serialisation) -/
+  fileGood : Bool := false
 
 def cryptOf (tab : List (Bytes × Bytes × Option Bytes)) : Crypt := fun p s =>
   match tab.find? (fun e => e.1 == p && e.2.1 == s) with
@@ -116,14 +118,14 @@ def showStep (i : Nat) (s : Step) : String :=
 
 /-- loadable verdict the ASSUMPTIONS give for a content: old and new load, a strict prefix of the
     new serialisation does not, anything else is not predicted -/
-def classify (old new content : Bytes) : String × String :=
+def classify (oldGood : Bool) (old new content : Bytes) : String × String :=
   if content == new then ("1", "new")
-  else if content == old then ("1", "old")
+  else if content == old then (if oldGood then "1" else "?", "old")
   else if content.length < new.length && new.take content.length == content then ("0", "prefix")
   else ("?", "other")
 
-def showSnap (old new : Bytes) (fs : Fs) : String :=
-  let (l, cls) := classify old new fs.data
+def showSnap (oldGood : Bool) (old new : Bytes) (fs : Fs) : String :=
+  let (l, cls) := classify oldGood old new fs.data
   s!"snap main={hexS fs.data} loadable={l} is={cls}"
 
 def errCode (e : ErrKind) : String :=
@@ -162,6 +164,7 @@ def stepLine (st : DState) (line : String) : DState × List String :=
   let crypt := cryptOf st.tab
   match words line with
   | [] => (st, [])
+  | ["mark", n] => (st, [s!"mark {n}"])
   | "crypt" :: pw :: setting :: res :: _ =>
     match Hex.toBytes? pw, Hex.toBytes? setting, parseOpt res with
     | some p, some s, some r => ({ st with tab := (p, s, r) :: st.tab }, [])
@@ -173,12 +176,12 @@ def stepLine (st : DState) (line : String) : DState × List String :=
   | "load" :: file :: "ok" :: ws =>
     match Hex.toBytes? file, parseDbWords ws with
     | some f, some db =>
-      let st' := { st with db := db, loaded := true, fs := ⟨f, 0⟩, lastSer := none }
+      let st' := { st with db := db, loaded := true, fs := ⟨f, 0⟩, lastSer := none, fileGood := true }
       (st', ["load ok", showDb true db])
     | _, _ => (st, ["load badline"])
   | "load" :: file :: "fail" :: _ =>
     match Hex.toBytes? file with
-    | some f => ({ st with db := [], loaded := false, fs := ⟨f, 0⟩, lastSer := none }, ["load fail"])
+    | some f => ({ st with db := [], loaded := false, fs := ⟨f, 0⟩, lastSer := none, fileGood := false }, ["load fail"])
     | none => (st, ["load badline"])
   | "reload" :: "ok" :: ws =>
     -- the model's file is what a fresh load sees
@@ -187,8 +190,8 @@ def stepLine (st : DState) (line : String) : DState × List String :=
       | some (b, d) => if b == st.fs.data then some d else none
       | none => none
     match predicted, parseDbWords ws with
-    | some d, _ => ({ st with db := d, loaded := true, fs := { st.fs with off := 0 } }, ["load ok", showDb true d])
-    | none, some d => ({ st with db := d, loaded := true, fs := { st.fs with off := 0 } }, ["load ok", showDb true d])
+    | some d, _ => ({ st with db := d, loaded := true, fs := { st.fs with off := 0 }, fileGood := true }, ["load ok", showDb true d])
+    | none, some d => ({ st with db := d, loaded := true, fs := { st.fs with off := 0 }, fileGood := true }, ["load ok", showDb true d])
     | none, none => (st, ["reload badline"])
   | "reload" :: "fail" :: _ =>
     let predictedOk : Bool :=
@@ -198,7 +201,7 @@ def stepLine (st : DState) (line : String) : DState × List String :=
     if predictedOk then
       -- the assumption says this file loads; say so, the comparison will flag the difference
       (st, ["load ok", showDb st.loaded st.db])
-    else ({ st with db := [], loaded := false }, ["load fail"])
+    else ({ st with db := [], loaded := false, fileGood := false }, ["load fail"])
   | ["peer", i] =>
     let i := i.toNat?.getD 0 % 8
     ({ st with names := st.names.set i none }, [showName i none])
@@ -238,13 +241,15 @@ def stepLine (st : DState) (line : String) : DState × List String :=
       let cl := match res.hashed with
         | some (setting, r) => [s!"crypt {hexS newpw} {hexS setting} {showOpt r}"]
         | none => []
-      let fsLines := (res.trace.zipIdx.map fun (s, k) => [showStep (k + 1) s, showSnap old new s.after]).flatten
+      let fsLines := (res.trace.zipIdx.map fun (s, k) => [showStep (k + 1) s, showSnap st.fileGood old new s.after]).flatten
       let resp := match res.err with
         | none => "passwd ok"
         | some e => s!"passwd err {errCode e} {errName e}"
       let wrote := !res.trace.isEmpty
       let st' := { st with db := res.db, fs := res.fs, ser := none,
-                           lastSer := if wrote then some (new, res.db) else st.lastSer }
+                           lastSer := if wrote then some (new, res.db) else st.lastSer,
+                           fileGood := if res.fs.data == new && wrote then true
+                                       else if res.fs.data == old then st.fileGood else false }
       (st', [s!"old {hexS old}"] ++ cl ++ fsLines ++
         [resp, s!"calls {res.trace.length}", showDb true res.db, s!"file {hexS res.fs.data}"])
     | _, _, _ => (st, ["passwd badhex"])
